@@ -80,6 +80,9 @@ class LuceneCheck:
         if self.zeal and self.invalid_term_chars_re.search(item.value):
             yield "Invalid characters in term value: %s" % item.value
 
+    def check_phrase(self, item, parents):
+        return iter([])
+
     def check_fuzzy(self, item, parents):
         if sign(item.degree) < 0:
             yield "invalid degree %d, it must be positive" % item.degree
